@@ -250,10 +250,17 @@ def run_history(case, res):
                               % (a[-6:], seen_late[-6:]), ctx)
                 return
 
-        # single-notification messages are compared with the model exactly
-        if len(msg) == 1 and msg[0][0] in pilots:
-            p, tgt = msg[0]
-            b      = before[p]
+        # every pilot which is named exactly once in the message is compared
+        # with the model exactly (a message is a bulk: the launcher reports
+        # all pilots of a bulk submission at once) - unless the message made
+        # the handler raise (contradictory finals are documented to)
+        named = [p for p, _ in msg]
+        for p, tgt in msg:
+            if p not in pilots or named.count(p) != 1 or exc is not None:
+                continue
+            res.count('bulk_notifications_checked' if len(msg) > 1
+                      else 'single_notifications_checked')
+            b = before[p]
             if b in FINAL_STATES:
                 exp = [b] + ([tgt] if tgt in FINAL_STATES else [])
             elif tgt in (rps.FAILED, rps.CANCELED) or _PV[tgt] >= _PV[b]:
@@ -261,8 +268,12 @@ def run_history(case, res):
             else:
                 exp = [b]
             if pilots[p].state not in exp:
-                res.violation('state-mismatch', '%s: %s --%s--> %s, model %s'
-                              % (p, b, tgt, pilots[p].state, exp), ctx)
+                mech = 'state-mismatch' if len(msg) == 1 else \
+                       'bulk-notification-lost'
+                res.violation(mech, '%s: %s --%s--> %s, model %s (message '
+                              'names %d pilots)' % (p, b, tgt, pilots[p].state,
+                                                    exp, len(msg)), ctx)
+                break
 
         for p in pilots:
             a = pilots[p].state
@@ -402,6 +413,118 @@ def run_concurrent(case, res):
     for e in errors:
         if 'invalid state transition' not in e:
             res.violation('concurrent/raised', e, ctx)
+
+
+# ------------------------------------------------------------------------------
+# (a'') the first notifications of a pilot racing its submission
+#
+# `submit_pilots` runs on the application thread; the launcher answers through
+# the state subscriber thread, possibly before `submit_pilots` has returned
+# (an eager launcher: its PMGR_LAUNCHING - or FAILED - notification is handled
+# completely while the application thread is still inside the push).  The
+# callbacks and Pilot.state must move forward only, whatever happens first.
+#
+def gen_submit(rng):
+    return {'kind': 'submit', 'seed': rng.randint(0, 2 ** 30),
+            'n': rng.randint(1, 3),
+            'answer': rng.choice([[rps.PMGR_LAUNCHING],
+                                  [rps.PMGR_LAUNCHING, rps.PMGR_ACTIVE_PENDING],
+                                  [rps.FAILED], [rps.PMGR_LAUNCHING, rps.FAILED],
+                                  [rps.PMGR_ACTIVE]]),
+            'eager': rng.random() < 0.7}
+
+
+def run_submit(case, res):
+    import radical.pilot.pilot as m_pilot
+
+    pm     = make_pmgr()
+    seen   = list()
+    mlock  = mt.Lock()
+    errors = list()
+    count  = [0]
+
+    def cb(p, state):
+        with mlock:
+            seen.append((p.uid, state, p.state))
+    pm.register_callback(cb)
+
+    def factory(pmgr=None, descr=None):
+        uid = 'pilot.%04d' % count[0]
+        count[0] += 1
+        p = make_pilot(pmgr, uid)
+        del pmgr._pilots[uid]          # submit_pilots registers it itself
+        return p
+
+    def answer(things):
+        for s in case['answer']:
+            try:
+                pm._state_sub_cb(rpc.STATE_PUBSUB, {'cmd': 'update', 'arg': [
+                    {'uid': t['uid'], 'type': 'pilot', 'state': s}
+                    for t in things]})
+            except ValueError:
+                pass
+            except Exception as e:
+                errors.append(repr(e))
+
+    late = list()
+
+    class _Launcher(object):
+        channel = 'pmgr_launching_queue'
+        def put(self, things, qname=None):
+            things = [dict(t) for t in ru.as_list(things)]
+            if case['eager']:
+                # the subscriber thread handles the launcher's answer while
+                # the application thread is still in here
+                t = mt.Thread(target=answer, args=[things], name='state-sub')
+                t.start()
+                t.join(timeout=10)
+            else:
+                late.append(things)
+
+    pm._outputs[rps.PMGR_LAUNCHING_PENDING] = _Launcher()
+    saved = m_pilot.Pilot
+    m_pilot.Pilot = factory
+    try:
+        descrs = [{'resource': 'local.localhost', 'cores': 4, 'nodes': 1,
+                   'runtime': 10} for _ in range(case['n'])]
+        try:
+            pilots = pm.submit_pilots(descrs)
+        except Exception as e:
+            res.inconc('submit_pilots could not be driven: %r' % e)
+            return
+    finally:
+        m_pilot.Pilot = saved
+    for things in late:
+        answer(things)
+
+    res.count('submit_histories')
+    ctx = {'case': case, 'callbacks': seen, 'errors': errors,
+           'states': {p.uid: p.state for p in pilots}}
+    for e in errors:
+        res.violation('submit/raised', e, ctx)
+        return
+    top = max(case['answer'], key=lambda s_: _PV[s_])
+    for p in pilots:
+        prev = rps.NEW
+        for uid, state, _ in seen:
+            if uid != p.uid:
+                continue
+            res.count('callbacks_checked')
+            if prev in FINAL_STATES and state not in FINAL_STATES:
+                res.violation('submit/final-left', '%s: %s announced after %s'
+                              % (uid, state, prev), ctx)
+                return
+            if _PV[state] < _PV[prev]:
+                res.violation('submit/callback-regress', '%s: %s announced '
+                              'after %s' % (uid, state, prev), ctx)
+                return
+            prev = state
+        if _PV[p.state] < _PV[top] or \
+                (top in FINAL_STATES and p.state not in FINAL_STATES):
+            res.violation('submit/state-behind', '%s: Pilot.state is %s after '
+                          'the launcher reported %s' % (p.uid, p.state,
+                                                        case['answer']), ctx)
+            return
 
 
 # ------------------------------------------------------------------------------
@@ -578,6 +701,14 @@ def run(ctx):
         if len(res.violations) > 30:
             break
 
+    rng = ctx.rng('submit')
+    for i in range(ctx.n(1600, 40000)):
+        case = gen_submit(rng)
+        res.evaluations += 1
+        run_submit(case, res)
+        if len(res.violations) > 30:
+            break
+
     rng = ctx.rng('cause')
     wd  = os.path.join(ctx.workdir or os.getcwd(), 'agent_sbox')
     os.makedirs(wd, exist_ok=True)
@@ -597,6 +728,10 @@ def run(ctx):
 def replay(case, ctx):
     res = Result()
     c = case['case']
+    if c.get('kind') == 'submit':
+        run_submit(c, res)
+        res.evaluations = 1
+        return res
     if c.get('kind') == 'concurrent':
         for _ in range(200):
             run_concurrent(c, res)
